@@ -10,7 +10,7 @@ warnings.simplefilter("ignore")
 
 import numpy as np
 
-from harness.common import f2b, b2f, err_enum
+from harness.common import f2b, b2f, err_enum, close
 
 TYPES = ["DdtGaussian", "DdtDdKDE", "DdtDdGaussian", "DsDdsGaussian", "DdtLogNorm", "IFUKinCov", "DdtHist",
          "DdtHistKDE", "DdtHistKin", "DdtGaussKin", "Mag", "TDMag", "TDMagMagnitude", "DSPL"]
@@ -334,3 +334,54 @@ def conv(x):
     if arr.ndim == 0 or arr.size == 1 and arr.ndim <= 1 and not isinstance(x, (list,)) and np.ndim(x) == 0:
         return float(arr)
     return [float(v) for v in arr.ravel()]
+
+
+def declared_pairs(cfg, hyper):
+    """(what, loc, scale) of every Gaussian population a single evaluation of this lens may draw from, read off the
+    configuration and the hyper-parameters alone (the declared distributions of the property statements): the lens'
+    OWN lambda population (IFU one when so flagged, with the alpha/beta scaling terms), gamma_in, log_m2l, global
+    gamma_pl, a_ani (GAUSSIAN / GAUSSIAN_SCALED / GAUSSIAN_TAN_RAD), beta_inf, the lens' global Gaussian LOS
+    population and the source magnitude population."""
+    kl = dict(hyper.get("kwargs_lens") or {})
+    kk = dict(hyper.get("kwargs_kin") or {})
+    ks = dict(hyper.get("kwargs_source") or {})
+    x = cfg.get("lambda_scaling_property", 0) or 0
+    y = cfg.get("lambda_scaling_property_beta", 0) or 0
+    out = []
+    if cfg.get("mst_ifu"):
+        lam, sig = kl.get("lambda_ifu", 1), kl.get("lambda_ifu_sigma", 0)
+    else:
+        lam, sig = kl.get("lambda_mst", 1), kl.get("lambda_mst_sigma", 0)
+    out.append(("lambda", lam + kl.get("alpha_lambda", 0) * x + kl.get("beta_lambda", 0) * y, sig))
+    gi = kl.get("gamma_in", 1)
+    if cfg.get("gamma_in_distribution", "NONE") == "GAUSSIAN":
+        gi = gi + kl.get("alpha_gamma_in", 0) * x
+    out.append(("gamma_in", gi, kl.get("gamma_in_sigma", 0)))
+    out.append(("log_m2l", kl.get("log_m2l", 1) + kl.get("alpha_log_m2l", 0) * x, kl.get("log_m2l_sigma", 0)))
+    out.append(("gamma_pl", kl.get("gamma_pl_mean", 2), kl.get("gamma_pl_sigma", 0)))
+    if kk.get("a_ani") is not None:
+        s = kk.get("a_ani_sigma", 0)
+        if cfg.get("anisotropy_distribution") == "GAUSSIAN_SCALED":
+            s = s * kk["a_ani"]
+        out.append(("a_ani", kk["a_ani"], s))
+    if kk.get("beta_inf") is not None:
+        out.append(("beta_inf", kk["beta_inf"], kk.get("beta_inf_sigma", 0)))
+    los = hyper.get("kwargs_los")
+    idx = cfg.get("global_los_distribution", False)
+    if los and idx is not False and idx is not None and cfg.get("los_distributions"):
+        if cfg["los_distributions"][idx] == "GAUSSIAN":
+            out.append(("kappa_ext", los[idx]["mean"], los[idx]["sigma"]))
+    # draw_source(mu_sne=1, sigma_sne=0) is requested for every lens, with these defaults when no source block is given
+    out.append(("mu_sne", ks.get("mu_sne", 1), ks.get("sigma_sne", 0)))
+    return out
+
+
+def undeclared_requests(cfg, hyper, rec, rtol=1e-12):
+    """every np.random.normal request of the recorded evaluations whose (loc, scale) is not one of the declared
+    populations of this lens"""
+    pairs = declared_pairs(cfg, hyper)
+    bad = []
+    for i, (loc, scale, _) in enumerate(rec.normals):
+        if not any(close(loc, l, rtol) and close(scale, s, rtol) for _, l, s in pairs):
+            bad.append((i, loc, scale))
+    return bad
